@@ -47,6 +47,8 @@ def r_ppat(p):
     if k == "cons": return f"[{p['v']} | {p['r']}]"
     if k == "cons2": return f"[{p['v']}, {p['w']} | {p['r']}]"
     if k == "ends": return f"[{p['v']} ... {p['w']}]"
+    if k == "tail2": return f"[... {p['v']} {p['w']}]"
+    if k == "ends3": return f"[{p['r']} ... {p['v']} {p['w']}]"
     raise ValueError(p)
 
 def r_target(t): return f":{t['state']}(" + ", ".join(r_expr(a) for a in t["args"]) + ")"
